@@ -41,7 +41,7 @@ def main():
         try:
             for c in checks:
                 t0 = time.time()
-                rc, out = sh("./check %s --tier quick" % c, cwd=VERIF, timeout=3000)
+                rc, out = sh("./check %s --tier quick%s" % (c, " --no-proof" if "--fast" in sys.argv else ""), cwd=VERIF, timeout=3000)
                 lines = [l for l in out.splitlines() if l.startswith(("VIOLATION", "KNOWN-FINDING"))]
                 what = ""
                 for l in lines:
